@@ -42,9 +42,7 @@ func sKeyCanon(k benchproc.Key) (s string) {
 
 func init() {
 	sim.RegisterCanon(sKeyCanon)
-	sim.RegisterCanon(func(k tableKey) string { return sKeyCanon(k.Benchmark) + "|" + sKeyCanon(k.Experiment) })
-	sim.RegisterCanon(func(k unitTableKey) string { return sKeyCanon(k.unit) + "|" + sKeyCanon(k.table) })
-	sim.RegisterCanon(func(k SeriesKey) string { return k.Benchmark + "\x00" + k.Series })
+	// maps keyed by structs of such keys (whatever the package calls them internally) are canonicalised member by member
 }
 
 // ---- the generated result set ----
@@ -708,7 +706,7 @@ func c18Run(t *testing.T, r *sim.Run, tier string) {
 	}
 	// bootstrap summaries: sane and reproducible
 	conf := []float64{0.5, 0.9, 0.95, 0.99}[T.Intn(4, "confidence")]
-	N := []int{50, 100, 200}[T.Intn(3, "resamples")]
+	N := []int{50, 100, 200, 50, 100, 200, 1000, 5000}[T.Intn(8, "resamples")]
 	mid := -1
 	if T.Intn(3, "incremental-builder") == 0 && policy == DUPE_REPLACE { // a partial set may lack denominators, which COMBINE cannot handle (documented gap)
 		mid = 1 + T.Intn(len(s.results), "mid-build-at")
@@ -728,8 +726,12 @@ func c18Run(t *testing.T, r *sim.Run, tier string) {
 		again, _ = sBuild(t, r, s, T.Perm(len(s.results), "add-order"), withTable, policy, false)
 	}
 	for ci, cs := range refCSS {
+		// the second computation runs on a machine with another processor count
+		r.SimProcs = []int{1, 2, 4}[ci%3]
 		cs.AddSummaries(conf, N)
+		r.SimProcs = []int{8, 1, 3}[ci%3]
 		again[ci].AddSummaries(conf, N)
+		r.SimProcs = 0
 		for si, ser := range cs.Series {
 			for bi, bn := range cs.Benchmarks {
 				sum := cs.Summaries[si][bi]
